@@ -607,3 +607,87 @@ func annoEndRule(R string) RuleFunc {
 		}
 	}
 }
+
+// crlfRule: a second line-end byte right after a line end changes nothing.
+func crlfRule(R string) RuleFunc {
+	return func(c *core.Ctx) {
+		c.Rule(R, "CRLF / blank-line invariance on the per-byte model of the schema scanner: for every state S and every path on which a line end is accepted and leads to a state T (no error), a second line-end byte in T is accepted too, emits nothing but NewLine and leads to a state whose 256 rows are identical to T's (usually T itself). Together with row(LF) = row(CR) this makes LF, CR and CRLF texts, and texts with an extra blank line, scan alike. Reported per state T; transitions that return through the return-to-step stack (`<pop>`) are not followed here (C14.annoend covers the inline-annotation endings)")
+		c.Floor(R, 10)
+		m := buildScanModel(c, "notations/jschema/scanner")
+		sig := func(name string) string {
+			rows, ok := m.rows[name]
+			if !ok {
+				return "?" + name
+			}
+			var sb strings.Builder
+			for b := 0; b < 256; b++ {
+				k := rows[b].key
+				// self references are equal up to the state's own name
+				k = strings.ReplaceAll(k, "step="+name+" ", "step=<self> ")
+				sb.WriteString(k)
+				sb.WriteByte('|')
+			}
+			return sb.String()
+		}
+		checked := map[string]bool{}
+		for _, s := range m.names {
+			for _, p := range m.rows[s]['\n'].paths {
+				if p.kind != "return" {
+					continue
+				}
+				t := p.next
+				if t == "" {
+					t = s
+				}
+				if t == "<pop>" || t == "<dyn>" || checked[t] {
+					continue
+				}
+				if _, ok := m.rows[t]; !ok {
+					continue
+				}
+				checked[t] = true
+				bad := ""
+				for _, q := range m.rows[t]['\n'].paths {
+					if hasAtom(q, "bin:==(1,load:&s.annotation)", true) {
+						continue // inside an inline annotation a line end cannot have been accepted just before
+					}
+					if q.kind != "return" {
+						bad = "a second line-end byte is an error: " + clip(q.String(), 120)
+						break
+					}
+					for _, f := range q.finds {
+						if f != "NewLine" {
+							bad = "a second line-end byte emits " + f
+						}
+					}
+					u := q.next
+					if u == "" {
+						u = t
+					}
+					if u == "<pop>" || u == "<dyn>" {
+						continue
+					}
+					if u != t && sig(u) != sig(t) {
+						bad = "a second line-end byte moves on to " + u + ", which behaves differently from " + t
+					}
+				}
+				key := "after-newline:" + t
+				pos := "-"
+				if f, ok := m.states[t]; ok {
+					pos = c.P.Pos(f.Pos())
+				}
+				if bad == "" {
+					c.OK(R, key, pos, "state "+t+" (reached by a line end): a second line-end byte is absorbed")
+				} else if r, ok := crlfTable[t]; ok {
+					c.Tabled(R, key, pos, "state "+t+" (reached by a line end)", r+" ["+bad+"]")
+				} else {
+					c.Bad(R, key, pos, "state "+t+" (reached by a line end)", bad+": a text with CRLF line ends (or a blank line here) is scanned differently from the same text with LF")
+				}
+			}
+		}
+	}
+}
+
+var crlfTable = map[string]string{
+	"stateEndValue": "dispatcher: it re-dispatches the byte to stateAfterObjectKey / stateAfterObjectValue / stateAfterArrayItem / stateEndTop according to the lexeme stack (each of which absorbs a second line end: their own obligations); its error paths belong to lexeme-stack configurations in which the scanner cannot rest in this state after a line end",
+}
